@@ -109,6 +109,11 @@ EmptyHeap ==
     grayAgain |-> <<>>,                    \* Context.gray_again (LIFO)
     rootNT    |-> TRUE,                    \* Context.root_needs_trace
     \* history (never read by an operator that models code)
+    \* Metrics (src/metrics.rs): the five credit counters, the allocation counter of the cycle,
+    \* wake-up amount and artificial debt (both scaled by 16), and the pacing (factors in 16ths)
+    mt        |-> [alloc |-> 0, marked |-> 0, traced |-> 0, remembered |-> 0, dropped |-> 0, freed |-> 0,
+                   wakeQ |-> 0, artQ |-> 0],
+    pc        |-> [sf |-> 8, ms |-> 256, mf |-> 2, tf |-> 6, kf |-> 1, df |-> 3, ff |-> 5],
     mutSinceWake |-> FALSE,                \* a mutator step happened since marking of this cycle began
     resurrected  |-> {},                   \* objects resurrected in this cycle
     fault        |-> FALSE ]               \* an operator was applied outside its precondition
@@ -116,6 +121,23 @@ EmptyHeap ==
 NT(s, o) == NeedsTrace(s.kind[o])
 Count(s) == Cardinality({o \in Obj : s.alive[o]})          \* Metrics::total_gc_count
 InMark(s) == s.phase = "Mark"
+
+\* Metrics::allocation_debt, times 16
+DebtQ(s) ==
+  IF Count(s) = 0 THEN 0
+  ELSE LET deb == 16 * s.mt.alloc - s.mt.wakeQ + s.mt.artQ IN
+       IF deb <= 0 THEN 0
+       ELSE LET cred == s.mt.marked * s.pc.mf + s.mt.traced * s.pc.tf + s.mt.remembered * s.pc.kf
+                        + s.mt.dropped * s.pc.df + s.mt.freed * s.pc.ff
+            IN IF deb - cred > 0 THEN deb - cred ELSE 0
+MaxI(a, b) == IF a >= b THEN a ELSE b
+\* Metrics::finish_cycle(reset_debt)
+FinishCycleM(s, reset) ==
+  [s EXCEPT !.mt = [alloc |-> 0, marked |-> 0, traced |-> 0, remembered |-> 0, dropped |-> 0, freed |-> 0,
+                    wakeQ |-> MaxI(s.mt.remembered * s.pc.sf, 16 * s.pc.ms),
+                    artQ  |-> IF reset THEN 0 ELSE DebtQ(s)]]
+\* Metrics::adjust_debt(x/16)
+AdjustDebt(s, xQ) == [s EXCEPT !.mt.artQ = @ + xQ]
 GrayRemaining(s) == s.gray # <<>> \/ s.grayAgain # <<>> \/ s.rootNT   \* Context::gray_remaining
 
 \* Arena::collection_phase
@@ -174,9 +196,10 @@ FreeIds(s) == {o \in Obj : ~s.alive[o] /\ ~Stale(s, o)}
 TrStrong(st, c) ==
   LET s == st.s IN
   IF s.color[c] \in {"W", "WW"}
-  THEN LET m2 == IF s.color[c] = "W" THEN st.m + 1 ELSE st.m IN
-       IF NT(s, c) THEN [s |-> [s EXCEPT !.color[c] = "G", !.gray = Append(@, c)], m |-> m2]
-                   ELSE [s |-> [s EXCEPT !.color[c] = "B"], m |-> m2]
+  THEN LET m2 == IF s.color[c] = "W" THEN st.m + 1 ELSE st.m
+           mk == IF s.color[c] = "W" THEN 1 ELSE 0 IN     \* only the first marking counts
+       IF NT(s, c) THEN [s |-> [s EXCEPT !.color[c] = "G", !.gray = Append(@, c), !.mt.marked = @ + mk], m |-> m2]
+                   ELSE [s |-> [s EXCEPT !.color[c] = "B", !.mt.marked = @ + mk], m |-> m2]
   ELSE st
 
 RECURSIVE TrSeq(_, _)
@@ -184,12 +207,15 @@ TrSeq(st, q) == IF q = <<>> THEN st ELSE TrSeq(TrStrong(st, Head(q)), Tail(q))
 
 \* Context::trace_weak, applied to a set of targets (order is immaterial)
 TrWeakSet(st, S) ==
-  [s |-> [st.s EXCEPT !.color = [o \in Obj |-> IF o \in S /\ st.s.color[o] = "W" THEN "WW" ELSE st.s.color[o]]],
-   m |-> st.m + Cardinality({o \in S : st.s.color[o] = "W"})]
+  LET n == Cardinality({o \in S : st.s.color[o] = "W"}) IN
+  [s |-> [st.s EXCEPT !.color = [o \in Obj |-> IF o \in S /\ st.s.color[o] = "W" THEN "WW" ELSE st.s.color[o]],
+                      !.mt.marked = @ + n],
+   m |-> st.m + n]
 
 \* Context::make_gray_again
 GrayAgain(s, p) == [s EXCEPT !.color[p] = "G", !.grayAgain = Append(@, p),
-                             !.fault = @ \/ s.color[p] # "B"]
+                             !.mt.traced = IF @ > 0 THEN @ - 1 ELSE 0,           \* mark_gc_untraced
+                             !.fault = @ \/ s.color[p] # "B" \/ s.mt.traced = 0]  \* ... must not underflow
 
 \* The write barriers.  The needs_trace test is the repair of finding F1.
 Backward(s, p, c) ==
@@ -218,19 +244,20 @@ ApplyBarrier(s, path, p, c) ==
 \* GcBuilder::assume_init + Context::link
 Alloc(s, o, k) ==
   [s EXCEPT !.alive[o] = TRUE, !.live[o] = TRUE, !.kind[o] = k, !.color[o] = "W",
-            !.strong[o] = <<>>, !.weak[o] = {},
+            !.strong[o] = <<>>, !.weak[o] = {}, !.mt.alloc = @ + 1,
             !.next[o] = s.head, !.head = o,
             !.sweepPrev = IF s.phase = "Sweep" /\ s.sweepPrev = NoObj THEN o ELSE s.sweepPrev]
 
 \* Context::resurrect  (queued even when the object needs no tracing)
 Resurrect(s, t) ==
   IF s.color[t] \in {"W", "WW"}
-  THEN [s EXCEPT !.color[t] = "G", !.gray = Append(@, t), !.resurrected = @ \cup {t}]
+  THEN [s EXCEPT !.color[t] = "G", !.gray = Append(@, t), !.resurrected = @ \cup {t},
+                 !.mt.marked = IF s.color[t] = "W" THEN @ + 1 ELSE @]
   ELSE s
 
 \* the body of mark_one for an object popped from a queue: colour it black and trace its value
 TraceObj(s, o) ==
-  TrWeakSet(TrSeq([s |-> [s EXCEPT !.color[o] = "B"], m |-> 0], s.strong[o]), s.weak[o])
+  TrWeakSet(TrSeq([s |-> [s EXCEPT !.color[o] = "B", !.mt.traced = @ + 1], m |-> 0], s.strong[o]), s.weak[o])
 
 \* the root's Collect::trace
 TraceRoot(s) == TrWeakSet(TrSeq([s |-> s, m |-> 0], s.rootS), s.rootW)
@@ -240,7 +267,7 @@ TraceRoot(s) == TrWeakSet(TrSeq([s |-> s, m |-> 0], s.rootS), s.rootW)
 AllPos == 99
 Prefix(q, n) == IF n >= Len(q) THEN q ELSE SubSeq(q, 1, n)
 PartialTraceObj(s, o, pos) ==
-  LET st == TrSeq([s |-> [s EXCEPT !.color[o] = "B"], m |-> 0], Prefix(s.strong[o], pos))
+  LET st == TrSeq([s |-> [s EXCEPT !.color[o] = "B", !.mt.traced = @ + 1], m |-> 0], Prefix(s.strong[o], pos))
   IN IF pos = AllPos THEN TrWeakSet(st, s.weak[o]) ELSE st
 PartialTraceRoot(s, pos) ==
   LET st == TrSeq([s |-> s, m |-> 0], Prefix(s.rootS, pos))
@@ -258,19 +285,22 @@ SweepOne(s) ==
          LET s2 == IF s.sweepPrev # NoObj THEN [s1 EXCEPT !.next[s.sweepPrev] = nx]
                                           ELSE [s1 EXCEPT !.head = nx, !.fault = @ \/ s.head # o]
          IN [s |-> [s2 EXCEPT !.alive[o] = FALSE, !.live[o] = FALSE, !.strong[o] = <<>>, !.weak[o] = {},
-                              !.next[o] = NoObj, !.kind[o] = "N"],
+                              !.next[o] = NoObj, !.kind[o] = "N",
+                              !.mt.dropped = IF s.live[o] THEN @ + 1 ELSE @, !.mt.freed = @ + 1],
              earn |-> "free"]
     [] s.color[o] = "WW" ->
          [s |-> [s1 EXCEPT !.sweepPrev = o, !.color[o] = "W", !.live[o] = FALSE,
-                           !.strong[o] = <<>>, !.weak[o] = {}],
+                           !.strong[o] = <<>>, !.weak[o] = {},
+                           !.mt.dropped = IF s.live[o] THEN @ + 1 ELSE @, !.mt.remembered = @ + 1],
           earn |-> "keep"]
     [] s.color[o] = "B" ->
-         [s |-> [s1 EXCEPT !.sweepPrev = o, !.color[o] = "W"], earn |-> "keep"]
+         [s |-> [s1 EXCEPT !.sweepPrev = o, !.color[o] = "W", !.mt.remembered = @ + 1], earn |-> "keep"]
     [] OTHER ->   \* gray object in the sweep region: debug_assert in the code
          [s |-> [s1 EXCEPT !.fault = TRUE], earn |-> "keep"]
 
 \* the end of a cycle: sweep_one's Break arm + Metrics::finish_cycle + root_needs_trace + switch(Sleep)
-EndSweep(s) == [s EXCEPT !.sweepPrev = NoObj, !.rootNT = TRUE, !.phase = "Sleep", !.resurrected = {}]
+EndSweep(s, reset) ==
+  [FinishCycleM(s, reset) EXCEPT !.sweepPrev = NoObj, !.rootNT = TRUE, !.phase = "Sleep", !.resurrected = {}]
 
 \* Drop for Context
 DropAll(s) ==
@@ -280,7 +310,9 @@ DropAll(s) ==
             !.strong = [o \in Obj |-> <<>>], !.weak = [o \in Obj |-> {}],
             !.rootS = <<>>, !.rootW = {}, !.head = NoObj, !.next = [o \in Obj |-> NoObj],
             !.sweep = NoObj, !.sweepPrev = NoObj, !.gray = <<>>, !.grayAgain = <<>>, !.rootNT = FALSE,
-            !.mutSinceWake = FALSE, !.resurrected = {}]
+            !.mutSinceWake = FALSE, !.resurrected = {},
+            !.mt = [alloc |-> 0, marked |-> 0, traced |-> 0, remembered |-> 0, dropped |-> 0, freed |-> 0,
+                    wakeQ |-> 0, artQ |-> 0]]
 
 -----------------------------------------------------------------------------
 (***************************************************************************)
@@ -315,14 +347,18 @@ Spend(c, traced, marked, swept) ==
 
 \* One iteration of the `loop` in do_collection, including the checks that follow the `match`.
 \* Returns [s, c, done].
+\* is the debt paid?  gran = "real": Metrics::allocation_debt decides (pacing configurations);
+\* otherwise the explicit budget (an empty arena has no debt in either case)
+Paid(s, c) == IF c.gran = "real" THEN DebtQ(s) = 0 ELSE c.budget = 0 \/ Count(s) = 0
+NoDebtAtEntry(s, b, g) == IF g = "real" THEN DebtQ(s) = 0 ELSE b = 0 \/ Count(s) = 0
+
 Iter(s, c) ==
   LET stop == StopOf(c.kind)
       \* the two checks after the match: never yield with the sweep list exhausted (repair of
       \* finding F6); debt-driven calls return when the debt is paid (an empty arena has no debt)
       After(s2, c2) ==
         IF s2.phase = "Sweep" /\ s2.sweep = NoObj THEN [s |-> s2, c |-> c2, done |-> FALSE]
-        ELSE [s |-> s2, c |-> c2,
-              done |-> c2.kind \in PayKinds /\ (c2.budget = 0 \/ Count(s2) = 0)]
+        ELSE [s |-> s2, c |-> c2, done |-> c2.kind \in PayKinds /\ Paid(s2, c2)]
   IN
   CASE s.phase = "Sleep" ->
          After([s EXCEPT !.phase = "Mark", !.mutSinceWake = FALSE], [c EXCEPT !.slept = TRUE])
@@ -351,12 +387,13 @@ Iter(s, c) ==
     [] s.phase = "Sweep" ->
          IF stop <= 1 THEN [s |-> s, c |-> c, done |-> TRUE]
          ELSE IF s.sweep = NoObj THEN
-           LET s2 == EndSweep(s) IN
+           LET s2 == EndSweep(s, c.slept) IN
            IF stop = 2 THEN [s |-> s2, c |-> c, done |-> TRUE]
            ELSE IF c.slept THEN [s |-> s2, c |-> c, done |-> TRUE]
            ELSE \* collect_debt finished a cycle it did not start: the remaining debt is carried
                 \* over (Metrics::finish_cycle(false)) and compared with the new wake-up amount
-                [s |-> s2, c |-> c, done |-> ~c.cont \/ c.budget = 0 \/ Count(s2) = 0]
+                [s |-> s2, c |-> c, done |-> IF c.gran = "real" THEN DebtQ(s2) = 0
+                                                   ELSE ~c.cont \/ c.budget = 0 \/ Count(s2) = 0]
          ELSE LET r == SweepOne(s) IN After(r.s, Spend(c, 0, 0, 1))
     [] OTHER -> [s |-> [s EXCEPT !.fault = TRUE], c |-> c, done |-> TRUE]
 
@@ -385,13 +422,13 @@ RECURSIVE LoopSig(_, _)
 LoopSig(s, c) == LET r == Iter(s, c) IN IF r.done THEN <<IterTag(s, c)>> ELSE <<IterTag(s, c)>> \o LoopSig(r.s, r.c)
 
 CallSig(s, kind, b, g, cont, fault) ==
-  IF kind \in PayKinds /\ (b = 0 \/ Count(s) = 0) THEN <<>>
+  IF kind \in PayKinds /\ NoDebtAtEntry(s, b, g) THEN <<>>
   ELSE LoopSig(s, [kind |-> kind, slept |-> FALSE, budget |-> b, gran |-> g, cont |-> cont, fault |-> fault])
 
 \* A public collection call.  b = 0 stands for "called with no debt".  `fault` arms a trace
 \* panic at the fault.at-th trace invocation of this call (NoFaultRec: none).
 CallF(s, kind, b, g, cont, fault) ==
-  IF kind \in PayKinds /\ (b = 0 \/ Count(s) = 0) THEN s
+  IF kind \in PayKinds /\ NoDebtAtEntry(s, b, g) THEN s
   ELSE Loop(s, [kind |-> kind, slept |-> FALSE, budget |-> b, gran |-> g, cont |-> cont, fault |-> fault])
 Call(s, kind, b, g, cont) == CallF(s, kind, b, g, cont, NoFaultRec)
 
